@@ -2765,11 +2765,9 @@ func (te *TemplateEngine) renderTableTemplate(table *Table, data *TemplateData) 
 					content = regexp.MustCompile(`\{\{#each\s+\w+\}\}`).ReplaceAllString(content, "")
 					content = regexp.MustCompile(`\{\{/each\}\}`).ReplaceAllString(content, "")
 
-					// 替换变量
-					for key, value := range itemMap {
-						placeholder := fmt.Sprintf("{{%s}}", key)
-						content = strings.ReplaceAll(content, placeholder, te.interfaceToString(value))
-					}
+					// 替换变量：对文本只扫描一遍。逐个字段 ReplaceAll 时，一个字段的值里若含有另一个
+					// 字段的占位符会被再替换一次，结果还取决于 map 的遍历顺序
+					content = te.replaceItemFields(content, itemMap)
 
 					// 处理条件语句
 					content = te.renderLoopConditionals(content, itemMap)
@@ -2866,6 +2864,33 @@ func (te *TemplateEngine) renderTableTemplate(table *Table, data *TemplateData) 
 	table.Rows = newRows
 
 	return nil
+}
+
+// replaceItemFields 把文本里的 {{字段名}} 替换成循环项里同名字段的值；只扫描一遍，
+// 替换进去的值不再被当作占位符，项里没有的字段保持原样
+func (te *TemplateEngine) replaceItemFields(content string, itemMap map[string]interface{}) string {
+	var out strings.Builder
+	for {
+		start := strings.Index(content, "{{")
+		if start < 0 {
+			break
+		}
+		end := strings.Index(content[start+2:], "}}")
+		if end < 0 {
+			break
+		}
+		name := content[start+2 : start+2+end]
+		if value, exists := itemMap[name]; exists {
+			out.WriteString(content[:start])
+			out.WriteString(te.interfaceToString(value))
+			content = content[start+2+end+2:]
+			continue
+		}
+		out.WriteString(content[:start+2])
+		content = content[start+2:]
+	}
+	out.WriteString(content)
+	return out.String()
 }
 
 // NewTemplateData 创建新的模板数据
